@@ -37,6 +37,19 @@ let () =
         string_of_int (int_of_z (operate (mathop_of_string o) (z_of_int (int_of_string x)) (z_of_int (int_of_string y))))
     | _ -> "BADCMD")
 
+let mathop_name = function
+  | None -> "-"
+  | Some MAdd -> "add" | Some MAnd -> "and" | Some MOr -> "or" | Some MSll -> "sll" | Some MSlt -> "slt"
+  | Some MSltu -> "sltu" | Some MSra -> "sra" | Some MSrl -> "srl" | Some MSub -> "sub" | Some MXor -> "xor"
+  | Some MMul -> "mul" | Some MMulh -> "mulh" | Some MMulhsu -> "mulhsu" | Some MMulhu -> "mulhu"
+  | Some MDiv -> "div" | Some MDivu -> "divu" | Some MRem -> "rem" | Some MRemu -> "remu"
+let () =
+  register "instop" (function
+    | [m] -> (match inst_from_str (dec_str m) with
+              | Some i -> mathop_name (math_op i) ^ " " ^ mathop_name (scalar_op i)
+              | None -> "none")
+    | _ -> "BADCMD")
+
 let run_file path =
   let ic = open_in path in
   (try
